@@ -1,5 +1,5 @@
 """C01 - the request pipeline is total (DESIGN.md section 4, C01)."""
-from .common import A
+from .common import run_native, A
 
 LEVEL = "other"
 EXPLANATION = (
@@ -51,3 +51,27 @@ def lift(model, req):
                 return {"confirmed": True, "entry": fn.__name__, "input": text,
                         "observed": f"{type(e).__name__}: {e}"}
     return {"confirmed": False}
+
+
+WITNESSES = {
+ 'F1-lexer-escape-at-end-of-source': r'''
+from graphql import parse, parse_value, GraphQLSyntaxError
+for s in ['{ f(a: "\\', '"\\u12', '"\\uD83D\\u12', '{f(a:"\\u', '"\\u{', '"\\u{12']:
+    for fn in (parse, parse_value):
+        try:
+            fn(s)
+        except GraphQLSyntaxError:
+            pass
+''',
+}
+
+
+def native_checks(tier, seed):
+    """Replays of the witnesses of repaired defects (KNOWN_FINDINGS.json 'fixed'): a fixed entry
+    suppresses nothing, so the violation is reported again if it ever returns."""
+    out = []
+    for name, code in WITNESSES.items():
+        rc, outp = run_native(code)
+        out.append({"id": f"C01/native/{name}", "failed": rc != 0, "output": outp,
+                    "input": code.strip()})
+    return out
